@@ -125,7 +125,7 @@ func genC18Meta(r *rng) c18Meta {
 
 	if r.chance(1, 25) {
 		// a large spec: far beyond every compression threshold and window
-		big := make([]byte, pick(r, []int{70 << 10, 200 << 10, 600 << 10}))
+		big := make([]byte, pick(r, []int{70 << 10, 200 << 10, 600 << 10, 600 << 10, 5 << 20, 9 << 20}))
 		for i := range big {
 			big[i] = byte('a' + (i*7+i/253)%23)
 		}
